@@ -389,11 +389,12 @@ def check(report, tier, only=None):
                        'std RwLock contract (exclusive writer, guard scope)', 'tokio broadcast::Sender::send delivers in call order']
     report.outside += ['interleavings with other threads are discharged by the lock-bracketing obligation plus the RwLock contract, not explored',
                        'that quinn actually closes the connection; lagging broadcast receivers']
-    obs = [ob_add, ob_remove, ob_remove_sid, ob_wrappers, ob_accessors]
+    from props import handler
+    obs = [ob_add, ob_remove, ob_remove_sid, ob_wrappers, ob_accessors, lambda rep: handler.ob_handler_tail(rep, PROP), lambda rep: handler.ob_add_peer(rep, PROP)]
     if tier == 'thorough':
         obs.append(ob_two_step)
     for f in obs:
-        if only and not any(s in f.__name__ for s in only):
+        if only and not any(s in getattr(f, '__name__', 'handler') for s in only):
             continue
         f(report)
     report.extra['mir_sha'] = mirdump.mir_sha('anemo')
